@@ -305,18 +305,37 @@ def check(run):
                                   text, "E4:euf+symx", queries=npaths, solver_s=dt)
                 else:
                     run.error(nm, "level-dependent subdivision (%s at level %r) does not show on real tiles of levels %d..%d" % (cell, lvl, max(2, lvl - 4), lvl + 2))
-    # argument order at the call site: real toast_tile_get_coords with a recording stand-in for the compiled subsample
+    # argument order at the call site and independence from earlier calls: real toast_tile_get_coords with a recording
+    # stand-in for the compiled subsample, over a HISTORY of calls in one process in which the same position occurs with
+    # different corners / orientation (the two coordinate systems give such pairs) and the same corners at another position
     calls = []
     saved = tt.subsample
-    tt.subsample = lambda *a: calls.append(a) or ("LON", "LAT")
+    tt.subsample = lambda *a: calls.append(a) or ("LON%d" % len(calls), "LAT%d" % len(calls))
+    A = Tile(Pos(3, 1, 2), ("UL", "UR", "LR", "LL"), "INC")
+    B = Tile(Pos(3, 1, 2), ("ul", "ur", "lr", "ll"), "DEC")        # same position, other coordinate system
+    C = Tile(Pos(3, 2, 1), ("UL", "UR", "LR", "LL"), "INC")        # same corners, other position
+    D = Tile(Pos(11, 1, 2), ("UL'", "UR'", "LR'", "LL'"), "INC")   # same (x, y), deeper level
+    hist = [A, B, A, C, D, B]
+    outs = []
     try:
-        t = Tile(Pos(3, 1, 2), ("UL", "UR", "LR", "LL"), "INC")
-        out = tt.toast_tile_get_coords(t)
+        for t in hist:
+            outs.append(tt.toast_tile_get_coords(t))
+    except Exception as e:  # noqa
+        outs.append(("raised", repr(e)))
     finally:
         tt.subsample = saved
-    ok = calls == [("UL", "UR", "LR", "LL", 256, "INC")] and out == ("LON", "LAT")
+    want_calls = [tuple(t.corners) + (256, t.increasing) for t in hist]
+    ok = calls == want_calls and outs == [("LON%d" % (k + 1), "LAT%d" % (k + 1)) for k in range(len(hist))]
     if ok:
-        run.ob("get-coords-argument-order", "confirmed", "execution", "toast_tile_get_coords passes corners[0..3], 256, increasing and returns (lons, lats)")
+        run.ob("get-coords-argument-order", "confirmed", "execution", "over a 6-call history (same position with other corners/orientation, same corners at another position, deeper level) "
+               "toast_tile_get_coords passes the tile's own corners[0..3], 256, increasing on every call and returns that call's (lons, lats)")
     else:
-        run.violation("get-coords-argument-order", "toast_tile_get_coords:argument-order", "toast_tile_get_coords calls subsample%r" % (calls,),
-                      "import sys\nsys.exit(1)\n", "execution")
+        text = ("# toast_tile_get_coords over a history of calls: every call must compute from the tile's own corners\nimport sys\nimport toasty.toast as tt\nfrom toasty.toast import Tile\nfrom toasty.pyramid import Pos\n"
+                "calls = []\ntt.subsample = lambda *a: calls.append(a) or ('LON%d' % len(calls), 'LAT%d' % len(calls))\n"
+                "A = Tile(Pos(3, 1, 2), ('UL', 'UR', 'LR', 'LL'), 'INC'); B = Tile(Pos(3, 1, 2), ('ul', 'ur', 'lr', 'll'), 'DEC')\n"
+                "C = Tile(Pos(3, 2, 1), ('UL', 'UR', 'LR', 'LL'), 'INC'); D = Tile(Pos(11, 1, 2), (\"UL'\", \"UR'\", \"LR'\", \"LL'\"), 'INC')\n"
+                "hist = [A, B, A, C, D, B]\nouts = [tt.toast_tile_get_coords(t) for t in hist]\n"
+                "want = [tuple(t.corners) + (256, t.increasing) for t in hist]\n"
+                "bad = calls != want or outs != [('LON%d' % (k + 1), 'LAT%d' % (k + 1)) for k in range(len(hist))]\nprint(calls, outs)\nsys.exit(1 if bad else 0)\n")
+        run.violation("get-coords-argument-order", "toast_tile_get_coords:argument-order-or-history",
+                      "toast_tile_get_coords over the history A, B(same pos, other corners), A, C, D, B: subsample calls %r, returned %r" % (calls, outs), text, "execution")
